@@ -109,7 +109,8 @@ func checkCompositeLiteral(
 	}
 
 	// Check if we're in one of the allowed constructors
-	if constructors.Match(pkgPath, currentFunction, typeName) {
+	// (constructors must live in the same package as the type)
+	if pkgPath == pass.Pkg.Path() && constructors.Match(pkgPath, currentFunction, typeName) {
 		return nil
 	}
 
@@ -169,7 +170,8 @@ func checkNewCall(
 	}
 
 	// Check if we're in one of the allowed constructors
-	if constructors.Match(pkgPath, currentFunction, typeName) {
+	// (constructors must live in the same package as the type)
+	if pkgPath == pass.Pkg.Path() && constructors.Match(pkgPath, currentFunction, typeName) {
 		return nil
 	}
 
@@ -241,7 +243,8 @@ func checkVarDeclaration(
 			}
 
 			// Check if we're in one of the allowed constructors
-			if constructors.Match(pkgPath, currentFunction, typeName) {
+			// (constructors must live in the same package as the type)
+			if pkgPath == pass.Pkg.Path() && constructors.Match(pkgPath, currentFunction, typeName) {
 				continue
 			}
 
